@@ -890,27 +890,49 @@ func (ctx *Context) evaluate() {
 			diceStates[diceStateIndex].times = times
 		case typeDiceSetKeepLowNum:
 			v := stackPop()
+			n, ok := readIntParam(v)
+			if !ok {
+				return
+			}
 			diceStates[diceStateIndex].isKeepLH = 1
-			diceStates[diceStateIndex].lowNum, _ = v.ReadInt()
+			diceStates[diceStateIndex].lowNum = n
 		case typeDiceSetKeepHighNum:
 			v := stackPop()
+			n, ok := readIntParam(v)
+			if !ok {
+				return
+			}
 			diceStates[diceStateIndex].isKeepLH = 2
-			diceStates[diceStateIndex].highNum, _ = v.ReadInt()
+			diceStates[diceStateIndex].highNum = n
 		case typeDiceSetDropLowNum:
 			v := stackPop()
+			n, ok := readIntParam(v)
+			if !ok {
+				return
+			}
 			diceStates[diceStateIndex].isKeepLH = 3
-			diceStates[diceStateIndex].lowNum, _ = v.ReadInt()
+			diceStates[diceStateIndex].lowNum = n
 		case typeDiceSetDropHighNum:
 			v := stackPop()
+			n, ok := readIntParam(v)
+			if !ok {
+				return
+			}
 			diceStates[diceStateIndex].isKeepLH = 4
-			diceStates[diceStateIndex].highNum, _ = v.ReadInt()
+			diceStates[diceStateIndex].highNum = n
 		case typeDiceSetMin:
 			v := stackPop()
-			i, _ := v.ReadInt()
+			i, ok := readIntParam(v)
+			if !ok {
+				return
+			}
 			diceStates[diceStateIndex].min = &i
 		case typeDiceSetMax:
 			v := stackPop()
-			i, _ := v.ReadInt()
+			i, ok := readIntParam(v)
+			if !ok {
+				return
+			}
 			diceStates[diceStateIndex].max = &i
 		case typeDetailMark:
 			span := code.Value.(BufferSpan)
